@@ -453,7 +453,9 @@ class Surrogates(Cached):
         for _ in range(n_iterations):
             #  Get Fourier phases of R surrogate
             r_fft = np.fft.rfft(R, axis=1)
-            r_phases = r_fft / np.abs(r_fft)
+            r_amps = np.abs(r_fft)
+            #  (a vanishing Fourier coefficient has no phase)
+            r_phases = r_fft / np.where(r_amps == 0, 1, r_amps)
 
             #  Transform back, replacing the actual amplitudes by the desired
             #  ones, but keeping the phases exp(iψ(i)
